@@ -204,16 +204,40 @@ Inductive sop :=
 | OpGenerate (k : key) (d : D) (init : tree Z)
 | OpDivide (mother : key) (daughters : list (key * option D * tree Z)) (choices : list bool)
 | OpDelete (k : key)
-| OpDeletePath (p : list key).                       (* '_delete': [(k,)] -- a path tuple instead of a key *)
+| OpDeletePath (p : list key)                        (* '_delete': [(k,)] -- a path tuple instead of a key *)
+| OpUpd (k : key) (v : tree Z).                      (* a plain value update of the child k ("inner keys") *)
 
 Definition op_rank (o : sop) : nat :=
   match o with OpAdd _ _ => 0 | OpMove _ _ | OpMoveP _ _ => 1 | OpGenerate _ _ _ => 2 | OpDivide _ _ _ => 3
+             | OpUpd _ _ => 4                (* after the structural keys, before '_delete' *)
              | OpDelete _ | OpDeletePath _ => 5 end.
 
 Record variant := { v_fix_move : bool; v_fix_flow : bool; v_fix_delete_path : bool }.
 Definition vfixed := {| v_fix_move := true; v_fix_flow := true; v_fix_delete_path := false |}.
 Definition vpinned := {| v_fix_move := false; v_fix_flow := false; v_fix_delete_path := false |}.
 Variable vr : variant.
+
+(* Store.apply_update of a plain value update below a child: every listed variable accumulates (the kit's
+   variables that are updated this way use the default updater); keys that are not children are skipped *)
+Fixpoint cadd (fuel : nat) (n : cnode) (v : tree Z) : res cnode :=
+  match fuel with
+  | O => Err EFuel
+  | S f =>
+    match n, v with
+    | CVar u z d, Lf dz => Ok (CVar u (z + dz)%Z d)
+    | CVar _ _ _, Nd _ => Err EOther
+    | CProc _ _, _ => Ok n
+    | CDir u g c, Nd vc =>
+      rbind (fold_left (fun acc kv =>
+                          rbind acc (fun c' =>
+                            match alookup (fst kv) c' with
+                            | Some ch => rbind (cadd f ch (snd kv)) (fun ch' => Ok (aset (fst kv) ch' c'))
+                            | None => Ok c'
+                            end)) vc (Ok c))
+            (fun c' => Ok (CDir u g c'))
+    | CDir _ _ _, Lf _ => Err EOther
+    end
+  end.
 
 Definition dir_at (t : cnode) (here : list key) : res (N * bool * list (key * cnode)) :=
   match cget t here with
@@ -248,6 +272,16 @@ Definition apply_op (t : cnode) (here : list key) (o : sop) (uid : N) : res (cno
         (* the tuple is wrapped in a tuple: nothing matches, nothing is deleted *)
         Ok (t, {| r_topology := []; r_process := []; r_step := []; r_flow := [];
                   r_deletions := []; r_expire := true |}, uid)
+    | OpUpd k v =>
+      match alookup k c with
+      | None => Ok (t, {| r_topology := []; r_process := []; r_step := []; r_flow := [];
+                          r_deletions := []; r_expire := false |}, uid)       (* `if key in self.inner` *)
+      | Some ch =>
+        rbind (cadd (S (tdepth v)) ch v) (fun ch' =>
+        rbind (cset t (here ++ [k]) ch') (fun t' =>
+          Ok (t', {| r_topology := []; r_process := []; r_step := []; r_flow := [];
+                     r_deletions := []; r_expire := false |}, uid)))
+      end
     | OpGenerate k d init =>
       let '(sub, uid1) := build d uid in
       rbind (set_value (S (tdepth init)) sub init uid1) (fun r =>
